@@ -77,7 +77,10 @@ class Grammar:
                             for b1 in self.bodies(a, inloop):
                                 for b2 in self.bodies(bsz, inloop):
                                     for b3 in self.bodies(n - 1 - a - bsz, inloop):
-                                        out.append(("ifelif", c, b1, b2, b3))
+                                        # (the second condition reads the counter only where the alphabet
+                                        # has a counter that is written first)
+                                        out.append(("ifelif", c, b1, b2, b3) if "cctr" in self.conds
+                                                   else ("ifelif", c, b1, b2, b3, "cin"))
             if "cond2" in cs and n >= 3:
                 for c in self.conds:
                     for a in range(1, n - 1):
@@ -132,7 +135,7 @@ def _stmt(s):
     if k == "ifelse":
         return ["If", CONDS[s[1]], _seq(s[2]), _seq(s[3])]
     if k == "ifelif":
-        return ["IfChain", [[CONDS[s[1]], _seq(s[2])], [CONDS["cctr"], _seq(s[3])]], _seq(s[4])]
+        return ["IfChain", [[CONDS[s[1]], _seq(s[2])], [CONDS[s[5] if len(s) > 5 else "cctr"], _seq(s[3])]], _seq(s[4])]
     if k == "cond2":
         return ["Cond", [[CONDS[s[1]], _seq(s[2])], [CONDS["c1"], _seq(s[3])]]]
     if k == "while":
@@ -217,6 +220,53 @@ def make_sub_program(body, bare=False, ret="none"):
         main = ["Seq", ["Call", "f"], ["Approve"]]
     sub = {"params": [], "ret": ret, "body": ["Seq"] + stmts, "locals": ["ctr", "i"], "init_locals": False}
     return {"mode": "A", "vars": {}, "subs": {"f": sub}, "main": main}
+
+
+def return_chains(max_arms=4):
+    """RETURN ANALYSIS: chains of k conditional arms plus a final arm, in three spellings (If/ElseIf/Else, hand-nested
+    If/Else, Cond), with EVERY assignment of {returns, falls through} to the arms, as the last statement of the main
+    routine and of a subroutine (none- and value-returning).  Whether the routine needs a closing return is decided
+    by the compiler's has_return analysis over exactly these shapes.
+    yields (size, program recipe, inputs, label)"""
+    import itertools
+    for k in range(1, max_arms + 1):
+        conds = [["Eq", ["Btoi", ["Arg", 0]], ["Int", i]] for i in range(k)]
+        inputs = [{"args": [bytes([i]), b""]} for i in range(k + 2)]
+        for mask in itertools.product((0, 1), repeat=k + 1):
+            for place in ("main", "sub_none", "sub_u"):
+                def arm(i):
+                    if not mask[i]:
+                        return ["Seq", ["TickS", i + 1]]
+                    if place == "main":
+                        return ["Seq", ["TickS", i + 1], ["Exit", ["Int", 1]]]
+                    if place == "sub_none":
+                        return ["Seq", ["TickS", i + 1], ["Return"]]
+                    return ["Seq", ["TickS", i + 1], ["Return", ["Int", 10 + i]]]
+                arms = [arm(i) for i in range(k + 1)]
+                for spelling in ("ifchain", "nested", "cond"):
+                    if spelling == "ifchain":
+                        chain = ["IfChain", [[conds[i], arms[i]] for i in range(k)], arms[k]]
+                    elif spelling == "nested":
+                        chain = arms[k]
+                        for i in reversed(range(k)):
+                            chain = ["If", conds[i], arms[i], chain]
+                    else:
+                        chain = ["Cond", [[conds[i], arms[i]] for i in range(k)] + [[["Int", 1], arms[k]]]]
+                    if place == "main":
+                        prog = {"mode": "A", "vars": {}, "subs": {}, "main": ["Seq", chain, ["TickS", 7], ["Int", 1]]}
+                    elif place == "sub_none":
+                        sub = {"params": [], "ret": "none", "body": ["Seq", chain], "locals": [], "init_locals": False}
+                        prog = {"mode": "A", "vars": {}, "subs": {"f": sub}, "main": ["Seq", ["Call", "f"], ["TickS", 7], ["Int", 1]]}
+                    else:
+                        if not all(mask):
+                            # a value-returning routine must return on every path: close it explicitly
+                            body = ["Seq", chain, ["Return", ["Int", 99]]]
+                        else:
+                            body = ["Seq", chain]
+                        sub = {"params": [], "ret": "u", "body": body, "locals": [], "init_locals": False}
+                        prog = {"mode": "A", "vars": {}, "subs": {"f": sub},
+                                "main": ["Seq", ["GPut", ["Bytes", "72"], ["Call", "f"]], ["TickS", 7], ["Int", 1]]}
+                    yield k + 1, prog, inputs, "%s/%s" % (spelling, place)
 
 
 def has_dead_code(body):
